@@ -25,7 +25,7 @@ use super::{
 use crate::{
     actor::MAX_COMMIT_DELAY,
     keys::Author,
-    ranger::{Fingerprint, Range, RangeEntry},
+    ranger::{Fingerprint, InsertOutcome, Range, RangeEntry},
     sync::{Entry, EntrySignature, Record, RecordIdentifier, Replica, SignedEntry},
     AuthorHeads, AuthorId, Capability, CapabilityKind, NamespaceId, NamespaceSecret, PeerIdBytes,
     ReplicaInfo,
@@ -779,44 +779,34 @@ impl<'a> crate::ranger::Store<SignedEntry> for StoreInstance<'a> {
     }
 
     fn entry_put(&mut self, e: SignedEntry) -> Result<()> {
-        let id = e.id();
-        self.store.as_mut().modify(|tables| {
-            // insert into record table
-            let key = (
-                &id.namespace().to_bytes(),
-                &id.author().to_bytes(),
-                id.key(),
-            );
-            let hash = e.content_hash(); // let binding is needed
-            let value = (
-                e.timestamp(),
-                &e.signature().namespace().to_bytes(),
-                &e.signature().author().to_bytes(),
-                e.content_len(),
-                hash.as_bytes(),
-            );
-            tables.records.insert(key, value)?;
+        self.store.as_mut().modify(|tables| put_rows(tables, &e))
+    }
 
-            // insert into by key index table
-            let key = (
-                &id.namespace().to_bytes(),
-                id.key(),
-                &id.author().to_bytes(),
-            );
-            tables.records_by_key.insert(key, ())?;
-
-            // insert into latest table
-            let key = (&e.id().namespace().to_bytes(), &e.id().author().to_bytes());
-            let is_latest = match tables.latest_per_author.get(key)? {
-                Some(existing) => e.timestamp() >= existing.value().0,
-                None => true,
-            };
-            if is_latest {
-                let value = (e.timestamp(), e.id().key());
-                tables.latest_per_author.insert(key, value)?;
+    /// Insert an entry, pruning the entries it supersedes.
+    ///
+    /// Same semantics as the default implementation, but pruning and writing happen within a single
+    /// access to the current transaction: the age-based automatic commit in [`Store::modify`] could
+    /// otherwise fall between the two steps and persist a state in which the superseded entries are
+    /// gone while the new entry is not there yet.
+    fn put(&mut self, entry: SignedEntry) -> Result<InsertOutcome> {
+        for prefix_entry in self.prefixes_of(entry.id())? {
+            let prefix_entry = prefix_entry?;
+            if entry.value() <= prefix_entry.value() {
+                return Ok(InsertOutcome::NotInserted);
             }
-            Ok(())
-        })
+        }
+        let id = entry.id();
+        let bounds = RecordsBounds::author_prefix(id.namespace(), id.author(), id.key_bytes());
+        let removed = self.store.as_mut().modify(|tables| {
+            let cb = |_k: RecordsId, v: RecordsValue| {
+                let (timestamp, _namespace_sig, _author_sig, len, hash) = v;
+                entry.value() >= &Record::new(hash.into(), len, timestamp)
+            };
+            let removed = tables.records.extract_from_if(bounds.as_ref(), cb)?.count();
+            put_rows(tables, &entry)?;
+            Ok(removed)
+        })?;
+        Ok(InsertOutcome::Inserted { removed })
     }
 
     fn get_range(&mut self, range: Range<RecordIdentifier>) -> Result<Self::RangeIterator<'_>> {
@@ -913,6 +903,46 @@ impl<'a> crate::ranger::Store<SignedEntry> for StoreInstance<'a> {
             Ok(count)
         })
     }
+}
+
+/// Write the rows of an entry into the records table, the by-key index and the heads table.
+fn put_rows(tables: &mut Tables, e: &SignedEntry) -> Result<()> {
+    let id = e.id();
+    // insert into record table
+    let key = (
+        &id.namespace().to_bytes(),
+        &id.author().to_bytes(),
+        id.key(),
+    );
+    let hash = e.content_hash(); // let binding is needed
+    let value = (
+        e.timestamp(),
+        &e.signature().namespace().to_bytes(),
+        &e.signature().author().to_bytes(),
+        e.content_len(),
+        hash.as_bytes(),
+    );
+    tables.records.insert(key, value)?;
+
+    // insert into by key index table
+    let key = (
+        &id.namespace().to_bytes(),
+        id.key(),
+        &id.author().to_bytes(),
+    );
+    tables.records_by_key.insert(key, ())?;
+
+    // insert into latest table
+    let key = (&e.id().namespace().to_bytes(), &e.id().author().to_bytes());
+    let is_latest = match tables.latest_per_author.get(key)? {
+        Some(existing) => e.timestamp() >= existing.value().0,
+        None => true,
+    };
+    if is_latest {
+        let value = (e.timestamp(), e.id().key());
+        tables.latest_per_author.insert(key, value)?;
+    }
+    Ok(())
 }
 
 fn chain_none<'a, I: Iterator<Item = T> + 'a, T>(
